@@ -6,10 +6,15 @@
 package majority
 
 //@ type Service
-//@   valid self.clientMonitor != nil && self.attestationDataProviders != nil
+//@   valid self.clientMonitor != nil && self.attestationDataProviders != nil && self.chainTime != nil
 //@   valid forall n string :: in(self.attestationDataProviders, n) ==> self.attestationDataProviders[n] != nil
 //@
 //@ // ---- C20: the goroutines a request starts all end, whether or not anybody still listens ----
+//@
+//@ // epoch of a slot as answered by the chain time service
+//@ spec func slotEpoch(slot phase0.Slot) phase0.Epoch
+//@ // the validity rule of this strategy: data with a target, and the target is of the slot's own epoch
+//@ spec func validData(d *phase0.AttestationData, slot phase0.Slot) bool = d != nil && d.Target != nil && d.Target.Epoch == slotEpoch(slot)
 //@
 //@ // a node's goroutine sends exactly one message, on one of the two channels it is handed
 //@ func (*Service).attestationData
@@ -18,6 +23,10 @@ package majority
 //@   // go-eth2-client returns a response with every nil error
 //@   assumes call AttestationData#1 (r, err): err == nil ==> r != nil
 //@   exit sends() == 1
+//@   // C07: only data that passes the validity rule is counted - data with a target, and the target is of the epoch of
+//@   // the REQUESTED slot (not of whatever slot the node answered for)
+//@   assumes call SlotToEpoch (e): e == slotEpoch(arg0)
+//@   chaninv respCh (m): m != nil && validData(m.attestationData, opts.Slot)
 //@
 //@ func (*Service).issueAttestationDataRequests
 //@   requires s != nil && opts != nil && requests == len(s.attestationDataProviders)
